@@ -164,8 +164,12 @@ def selOf (o : Oracles) : Fam → Option (Bytes × Bool)
 
 def randomizeDstPortMinVersion : Nat := 3
 
-/-- `NewRegistration`: phantom selection, transport lookup, parameters, destination port
-(`getPhantomDstPort`: 443 for old clients and subnets without port randomisation), protocol. -/
+/-- `getPhantomDstPort`: 443 for old clients and for subnets without port randomisation, else the
+transport's choice -/
+def basePort (m : Msg) (o : Oracles) (rnd : Bool) : Option Nat :=
+  if m.libVer < randomizeDstPortMinVersion || !rnd then some 443 else o.tpPort
+
+/-- `NewRegistration`: phantom selection, transport lookup, parameters, destination port, protocol. -/
 def newRegistration (c : Cfg) (m : Msg) (o : Oracles) (f : Fam) : Option Build :=
   match selOf o f with
   | none => none
@@ -173,8 +177,7 @@ def newRegistration (c : Cfg) (m : Msg) (o : Oracles) (f : Fam) : Option Build :
     if !c.transports.contains m.transport then none
     else if !o.paramsOk then none
     else
-      let port := if m.libVer < randomizeDstPortMinVersion || !rnd then some 443 else o.tpPort
-      match port with
+      match basePort m o rnd with
       | none => none
       | some p => some { phantom := ph, port := p, proto := o.proto }
 
@@ -182,25 +185,34 @@ def newRegistration (c : Cfg) (m : Msg) (o : Oracles) (f : Fam) : Option Build :
 def overrideValid (f : Fam) (ip : Bytes) : Bool :=
   validIP ip && (isV4 ip == (f == .v4))
 
+def overrideOkB (m : Msg) (f : Fam) : Bool :=
+  match overrideOf m f with
+  | some ip => overrideValid f ip
+  | none => true
+
+/-- the registrar's port override is cast to `uint16` -/
+def finalPort (m : Msg) (p : Nat) : Nat :=
+  match m.rr with
+  | some rr => match rr.dstPort with
+    | some q => q % 65536
+    | none => p
+  | none => p
+
+def mkReg (m : Msg) (o : Oracles) (phantom : Bytes) (port : Nat) : Reg :=
+  { phantom := phantom, port := port, proto := o.proto, registrant := registrantOf m, source := m.source,
+    transport := m.transport, prescanned := m.prescanned, v4Support := m.v4Support, ident := o.ident }
+
 /-- `NewRegistrationC2SWrapper(c2sw, includeV6)` -/
 def buildFam (c : Cfg) (m : Msg) (o : Oracles) (f : Fam) : Except BuildErr Reg :=
   match newRegistration c m o f with
   | none => .error .newReg
   | some b =>
-    let ov := overrideOf m f
-    if (match ov with | some ip => !overrideValid f ip | none => false) then .error .override else
-    let phantom := ov.getD b.phantom
-    let client := registrantOf m
-    if !validIP client then .error .registrant else
-    if isV4 phantom && !isV4 client then .error .family else
+    if !overrideOkB m f then .error .override else
+    let phantom := (overrideOf m f).getD b.phantom
+    if !validIP (registrantOf m) then .error .registrant else
+    if isV4 phantom && !isV4 (registrantOf m) then .error .family else
     if !o.geoOk then .error .geo else
-    let port := match m.rr with
-      | some rr => match rr.dstPort with
-        | some p => p % 65536
-        | none => b.port
-      | none => b.port
-    .ok { phantom := phantom, port := port, proto := b.proto, registrant := client, source := m.source,
-          transport := m.transport, prescanned := m.prescanned, v4Support := m.v4Support, ident := o.ident }
+    .ok (mkReg m o phantom (finalPort m b.port))
 
 /-- is the family attempted at all (`parseRegMessage`'s guards) -/
 def attempted (c : Cfg) (m : Msg) : Fam → Bool
